@@ -18,6 +18,7 @@ NAME_MAPS: Dict[str, List[str]] = {
     'adversarial': ['is_open', 'Pin', 'not_X', '_', '__x', 'e'],
     'adversarial2': ['t', 'self_', 'If', 'or_1', 'x9_', 'lambda_'],
     'funcnames': ['exp', 'max', 'log', 'min', 'abs', 'np'],
+    'vnames': [f'V{i}' for i in range(1, 61)],
     'long': ['Household_consumption_total_real', 'gross_domestic_product_2', 'k', 'V_1_2_3', 'Z' * 30, 'q_'],
 }
 
